@@ -6,7 +6,7 @@ class C15(FloorProp):
     profile = 'c15'
     crash_every = 6
     design_ref = 'DESIGN.md section 4 / C15'
-    budgets = {'quick': 8000, 'thorough': 300000}
+    budgets = {'quick': 30000, 'thorough': 600000}
 
 
 PROP = C15()
